@@ -78,6 +78,8 @@ func checkC08(p *Prog, r *Report) {
 	c08Clip(p, r, "C08.R5")
 	// uptake of a day without demand must be zero, not yesterday's (shared with C01.R5)
 	dayHandover(p, r, "C08.R6")
+	// potential ET ≥ 0 needs non-negative sunshine hours and radiation: the sentinel must not survive (shared with C04.R8)
+	sentinelFallback(p, r, "C08.R8")
 	// a NaN compares false with every cap and bound: the partial operations of the evapotranspiration routine stay
 	// inside their domains (shared machinery with C06.R6)
 	domainRule(p, r, "C08.R7", "the evapotranspiration routine", []string{"hermes.Evatra"}, 60)
@@ -363,6 +365,28 @@ func c08Support(p *Prog, r *Report, x *Exec) {
 		return s.Equal(minWG) || s.Equal(alt) || s.Equal(PCallComm("min", cellP("GlobalVarsMain.GRW"), cellP("GlobalVarsMain.WURZ")))
 	}
 	_ = isMin
+	// the bound must be min(rooting depth, groundwater level) with the level itself (or the level rounded
+	// DOWN): a level rounded to the nearest layer lies below the table whenever its fraction is ≥ 0.5
+	boundOK := func(m *Atom) (bool, string) {
+		if m == nil || m.Kind != "call" || m.Fn != "min" || len(m.Args) != 2 {
+			return false, "bound is not min(·,·)"
+		}
+		grw := cellP("GlobalVarsMain.GRW")
+		wurz := cellP("GlobalVarsMain.WURZ")
+		isW := func(q Poly) bool {
+			s := stripVersions(q)
+			return s.Equal(wurz) || s.Equal(PCall("float64", wurz))
+		}
+		isG := func(q Poly) bool {
+			s := stripVersions(q)
+			return s.Equal(grw) || s.Equal(PCall("floor", grw)) || s.Equal(PCall("trunc", grw))
+		}
+		a, b := m.Args[0], m.Args[1]
+		if (isW(a) && isG(b)) || (isW(b) && isG(a)) {
+			return true, ""
+		}
+		return false, "bound " + clip(stripVersions(PAtom(m)).String(), 80) + " is not min(WURZ, GRW) of the groundwater level itself"
+	}
 	n := 0
 	for _, e := range x.Events {
 		if e.Kind != "assign" || e.Root != "GlobalVarsMain.TP" || len(e.Idx) != 1 {
@@ -392,8 +416,12 @@ func c08Support(p *Prog, r *Report, x *Exec) {
 				}
 				want := mkCmp(e.Idx[0].Add(PInt(1)), PAtom(m), token.LEQ, nil)
 				if g.P.Equal(want.P) && g.Op == want.Op {
-					ok = true
-					how = "in the arm layer number ≤ min(WURZ, GRW)"
+					if bok, bwhy := boundOK(m); bok {
+						ok = true
+						how = "in the arm layer number ≤ min(WURZ, GRW)"
+					} else {
+						how = bwhy
+					}
 				}
 			}
 		}
@@ -409,8 +437,18 @@ func c08Support(p *Prog, r *Report, x *Exec) {
 				}
 				h := stripVersions(hi).String()
 				if strings.HasPrefix(h, "int(") && strings.Contains(h, "min(") && strings.Contains(h, "GlobalVarsMain.WURZ") && strings.Contains(h, "GlobalVarsMain.GRW") {
-					ok = true
-					how = "layer number runs up to " + h
+					var m *Atom
+					hi.walkAtoms(func(a *Atom) {
+						if a.Kind == "call" && a.Fn == "min" {
+							m = a
+						}
+					})
+					if bok, bwhy := boundOK(m); bok {
+						ok = true
+						how = "layer number runs up to " + h
+					} else {
+						how = bwhy
+					}
 				}
 			}
 		}
